@@ -111,6 +111,25 @@ def run(tier, seed):
         res.count("repeat-multichannel/" + cls); res.count("repeat-multichannel-hops", nh); res.case(("rep3", cls, mname, sd), nh > 0)
         if not all(snaps_equal(x[0], y[0]) and x[1] == y[1] for x, y in zip(a, b)):
             bad.append(dict(failed="repeating a run with the same seeds yields identical snapshots and events (class %s on a 3-state model started on the middle state; process-global generators reseeded in between)" % cls, case=dict(cls=cls, model=mname, seed=sd)))
+    # (a'') a model object carries no history: a run gives the same snapshots on a fresh model object and on one that another trajectory used before
+    #       (coherent initial density matrix, so that the sign convention of the states matters)
+    HIST = [("shin-metiu-32", lambda: M["shin-metiu"](nstates=3, nel=32), ([-2.6], [-90.0], 45, 2.0), ([-6.0], [20.0], 30, 2.0)),
+            ("modelx", lambda: M["modelx"](), ([-9.0], [14.0], 60, 20.0), ([4.0], [-12.0], 40, 20.0)),
+            ("models", lambda: M["models"](), ([-9.0], [14.0], 60, 20.0), ([5.0], [-12.0], 40, 20.0))]
+    for it, (hname, mk_, (xa, pa, na, dta), (xb, pb, nb_, dtb)) in enumerate(HIST if tier != "quick" else HIST):
+        for cls_ in ([mudslide.Ehrenfest] if tier == "quick" else [mudslide.Ehrenfest, mudslide.TrajectorySH]):
+            n_ = mk_().nstates(); a_ = np.array([complex(rng.gauss(0, 1), rng.gauss(0, 1)) for _ in range(n_)]); a_ /= np.linalg.norm(a_)
+            rho0 = np.outer(a_, a_.conj()); sdB = rng.randrange(2 ** 31)
+            def runB(model):
+                return trace_dump(cls_(model, xb, pb, rho0.copy(), state0=0, dt=dtb, max_steps=nb_, seed_sequence=sdB, zeta_list=[2.0] * (nb_ + 5)).simulate())
+            fresh = runB(mk_())
+            used = mk_()
+            mudslide.TrajectorySH(used, xa, pa, 0, dt=dta, max_steps=na, zeta_list=[2.0] * (na + 5), seed_sequence=1).simulate()
+            again = runB(used)
+            res.count("model-object-history/" + hname); res.case(("modelhist", hname, cls_.__name__), True)
+            if not snaps_equal(fresh, again):
+                bad.append(dict(failed="repeating a run with the same model, initial conditions, options and seeds yields identical snapshots (model object %s used by another trajectory before: the run differs from the same run on a fresh model object)" % hname,
+                                case=dict(model=hname, cls=cls_.__name__, first_trajectory=dict(x=xa, p=pa, steps=na), run=dict(x=xb, p=pb, steps=nb_))))
     # (c) seed keys: generator spawn + even-sampling clones
     for it in range(nrep * 3):
         key = [rng.randrange(5) for _ in range(rng.randint(0, 3))]
@@ -194,6 +213,6 @@ def run(tier, seed):
         res.violation("implementation differs from Model/Rng.v (theorems no longer cover the code)",
                       dict(kind="correspondence", correspondence="Run/R19.chk12k/chk12d: spawn keys and threshold order vs numpy SeedSequence / draw_new_zeta", failing_inputs=corr, no_failing_input_found=True))
     return finish(res, thm,
-                  rule="every batch run twice with the same seeds (5 classes incl. even-sampling trees; constant, normal and Boltzmann generators; numpy/python global generators reseeded differently before each run) and compared bit-for-bit; cumulative and stack-less even-sampling runs on 3-state models started on the middle state; batch of n vs n+k; SeedSequence.spawn keys for random parents and successive spawn counts; "
+                  rule="every batch run twice with the same seeds (5 classes incl. even-sampling trees; constant, normal and Boltzmann generators; numpy/python global generators reseeded differently before each run) and compared bit-for-bit; cumulative and stack-less even-sampling runs on 3-state models started on the middle state; runs with a coherent initial density matrix on a fresh model object and on one used by another trajectory before; batch of n vs n+k; SeedSequence.spawn keys for random parents and successive spawn counts; "
                        "even-sampling clone keys; draw_new_zeta order for random zeta_lists against a twin generator; clones of 5 classes at random steps continued alongside the original; non-trivial = distinct case",
                   assumptions=["bit-for-bit repeatability of numpy/LAPACK within one process", "clone isolation is observed on the attributes that are arrays/lists/dicts"])
